@@ -235,7 +235,10 @@ class Gen:
             n = r.randint(2, 3)
             bs = [self._expr(d - 1, in_rep) for _ in range(n)]
             if r.random() < 0.08:
-                bs[r.randrange(n)] = ("seq", [])
+                k = r.randrange(n)
+                # (never drop a branch that defines a group: numbering and back-references depend on it)
+                if not any(x[0] == "grp" and x[1] for x in walk(bs[k])):
+                    bs[k] = ("seq", [])
             return ("grp", False, ("alt", bs), 0) if self.allow_noncap else self._cap(("alt", bs), None)
         if x < 0.76 and self.ngroups < self.maxgroups:
             self.ngroups += 1
@@ -398,6 +401,8 @@ def features(node):
             while c is not None:
                 if c[1]:
                     f.add("negated_class")
+                if c[3] is not None:
+                    f.add("class_subtraction")
                 c = c[3]
         if t == "grp":
             if n[1]:
